@@ -1123,7 +1123,9 @@ _object_key:
 		rt.ConvTBool(true, (*interface{})(val))
 	case KFalse:
 		rt.ConvTBool(false, (*interface{})(val))
-	case KNull: /* skip */
+	case KNull:
+		/* the slot of a repeated key holds the earlier value */
+		*(*interface{})(val) = nil
 	case KUint:
 		ctx.efacePool.ConvF64(float64(node.U64()), val)
 	case KSint:
